@@ -11,16 +11,44 @@ import signal
 import os
 import traceback
 
-from .harness import Partial
+from .harness import EnoughViolations, Partial
 
 _WORKER_FN = None
+_SHARD_LIMIT = 0
+
+
+class ShardTimeout(BaseException):
+    """Raised by the watchdog inside the code under test (BaseException so that `except Exception` in
+    the library cannot swallow it)."""
+
+
+def _alarm(signum, frame):
+    raise ShardTimeout()
 
 
 def _call(shard):
+    part = Partial()
+    part.shard_violation_limit = int(os.environ.get("VERIF_SHARD_VIOLATIONS", "40"))
     try:
         faulthandler.register(signal.SIGUSR1, all_threads=True)
-        part = Partial()
-        _WORKER_FN(shard, part)
+        if _SHARD_LIMIT:
+            signal.signal(signal.SIGALRM, _alarm)
+            signal.alarm(_SHARD_LIMIT)
+        try:
+            _WORKER_FN(shard, part)
+        finally:
+            signal.alarm(0)
+        return part, None
+    except EnoughViolations:
+        return part, None
+    except ShardTimeout:
+        # Every shard is sized to finish in seconds on the unchanged tree; a shard that is still running after
+        # the horizon means the library did not terminate (or became orders of magnitude slower) on some case.
+        part.violation(
+            "no-termination-within-horizon",
+            {"shard": list(shard) if isinstance(shard, (list, tuple)) else shard, "horizon_s": _SHARD_LIMIT},
+            {"observed": "shard still running after %d s" % _SHARD_LIMIT},
+        )
         return part, None
     except Exception:
         return None, "worker failed on shard %r:\n%s" % (shard, traceback.format_exc())
@@ -44,14 +72,24 @@ def rotate(shards, seed):
     return shards[k:] + shards[:k]
 
 
-def run_shards(run, worker_fn, shards, seed=0, jobs=None, chunksize=1):
+def run_shards(run, worker_fn, shards, seed=0, jobs=None, chunksize=1, shard_limit=240):
     """worker_fn(shard, partial) is executed for every shard; results are merged
     into `run`.  worker_fn must be a module-level function (fork start method
     means it need not be picklable, it is inherited)."""
-    global _WORKER_FN
+    global _WORKER_FN, _SHARD_LIMIT
     _WORKER_FN = worker_fn
+    _SHARD_LIMIT = int(os.environ.get("VERIF_SHARD_LIMIT", shard_limit))
     shards = rotate(shards, seed)
     jobs = jobs or nprocs()
+    stop_after = int(os.environ.get("VERIF_STOP_AFTER", "150"))
+
+    def enough():
+        # a verdict is already certain; do not spend hours enumerating more counterexamples
+        if run.c("violations_raw") >= stop_after:
+            run.cap("stopped early after %d violating cases (VERIF_STOP_AFTER); the space was not completed" % run.c("violations_raw"))
+            return True
+        return False
+
     if jobs == 1 or len(shards) <= 1:
         for s in shards:
             part, err = _call(s)
@@ -59,6 +97,8 @@ def run_shards(run, worker_fn, shards, seed=0, jobs=None, chunksize=1):
                 run.harness_error(err)
             else:
                 run.merge(part)
+            if enough():
+                break
         return
     ctx = multiprocessing.get_context("fork")
     with ctx.Pool(jobs) as pool:
@@ -67,3 +107,24 @@ def run_shards(run, worker_fn, shards, seed=0, jobs=None, chunksize=1):
                 run.harness_error(err)
             else:
                 run.merge(part)
+            if enough():
+                pool.terminate()
+                break
+
+
+def _tuplify(x):
+    if isinstance(x, list):
+        return tuple(_tuplify(v) for v in x)
+    return x
+
+
+def replay_shard(worker_fn, shard, limit):
+    """Re-run one shard under the watchdog (replay of a no-termination finding)."""
+    global _WORKER_FN, _SHARD_LIMIT
+    _WORKER_FN = worker_fn
+    _SHARD_LIMIT = int(limit)
+    part, err = _call(_tuplify(shard))
+    if err:
+        return False, err
+    bad = [v for v in part.violations]
+    return (not bad), (bad[0].detail if bad else "shard finished within the horizon without violations")
